@@ -2223,6 +2223,8 @@ static int64_t eval2(Node *node, char ***label) {
       error_tok(node->tok, "not a compile-time constant");
     if (node->var->ty->kind != TY_ARRAY && node->var->ty->kind != TY_FUNC)
       error_tok(node->tok, "invalid initializer");
+    if (node->var->is_local || node->var->is_tls)
+      error_tok(node->tok, "not a compile-time constant");
     *label = &node->var->name;
     return 0;
   case ND_NUM:
@@ -2235,7 +2237,10 @@ static int64_t eval2(Node *node, char ***label) {
 static int64_t eval_rval(Node *node, char ***label) {
   switch (node->kind) {
   case ND_VAR:
-    if (node->var->is_local || !label)
+    // [https://www.sigbus.info/n1570#6.6p9] An address constant points
+    // to an object of static storage duration: the address of a
+    // thread-local variable is not known before the thread runs.
+    if (node->var->is_local || node->var->is_tls || !label)
       error_tok(node->tok, "not a compile-time constant");
     *label = &node->var->name;
     return 0;
